@@ -588,6 +588,12 @@ def main(argv):
                                 "note": "proof obligations no longer check; no failing input found (searched %d extra cases)" % searched}, False))
     if harness_errors:
         violations.append(({"property": prop, "kind": "unchecked", "harness_errors": harness_errors[:5], "seed": seed}, False))
+    if tie_broken and not violations and os.environ.get("VERIF_STRICT_TIE"):
+        # strict reading: a tie theorem that no longer applies is reported even though the correspondence still holds
+        violations.append(({"property": prop, "kind": "unchecked", "translator_tie": tie["changed"], "seed": seed,
+                            "theorems": "coq/Proofs/GenTie*.v (model = translation) for " + ", ".join(tie["changed"]),
+                            "note": "the source of these functions differs from the committed translation coq/Gen/*.v, so their tie theorems no longer "
+                                    "apply; correspondence and oracles found no failing input (searched %d extra cases)" % searched}, False))
 
     # known findings: replay each listed witness
     for kf in known:
